@@ -374,6 +374,8 @@ class C06(Property):
         'PARTIAL: accuracy and step control of the delegated integrator (pyodesys -> scipy LSODA) are runtime behaviour; sampled, not proved. '
         'Accepted per component: |c_i - ref_i| <= %g*(atol + rtol*|ref_i|) + %g*rtol*max_j|ref_j|; excursion outside [0, ub_i] <= %g*(atol + rtol*ub_i); '
         'drift of an element total <= %g*sum_j|a_j|(atol + rtol*max_t|c_j|) (factors from the measured distributions in notes/C06.md)' % (ACC_F, ACC_G, BOUND_F, DRIFT_F),
+        'residual blind spot of the sampled accuracy: a species below 2*ACC_G*rtol of the dominant one (2e-5*max for rtol 1e-6, 4e-9*max for '
+        'rtol 1e-10) could be entirely wrong and pass; a quarter of the runs use each of rtol 1e-6/1e-8/1e-9/1e-10',
         'exact model vs Python floats on dyadic inputs: f and the bounds are exact, h is compared with relative tolerance 1e-11 '
         '(two roundings in (ub - y)/f amplified by ub/(ub - y) <= 5e3)',
         'numpy float division by a zero composition coefficient (inf/nan + RuntimeWarning) is outside the model (the model says ZeroDivisionError)',
@@ -388,19 +390,24 @@ class C06(Property):
         'closed forms are the right references (first_order_is_linear, *_solves_system) — without a uniqueness theorem and, for first-order '
         'networks, without a formal proof that t -> exp(Mt)c0 solves c\' = Mc',
         '"concentrations never become negative beyond tolerance or exceed the supply of their constituent elements" ALONG computed '
-        'trajectories: sampled only. Proved are the tangent condition (quasi_positive), the Metzler structure, B.M = 0 and that any '
+        'trajectories: sampled only. Proved is the DISCRETE analogue (euler_iterates_admissible: iterated advertised Euler steps stay '
+        'non-negative, below upper_conc_bounds(c0), totals exact), the tangent condition (quasi_positive), the Metzler structure, B.M = 0 and that any '
         'non-negative state with the same totals is below the bound (upper_bound_valid); forward invariance of the orthant for exact '
         'solutions (Nagumo / exp of a Metzler matrix is non-negative) is the classical theorem, NOT formalised, and says nothing about '
         'the numerical trajectory',
         '"from text input through to the result arrays": ReactionSystem.from_string -> get_odesys -> pyodesys plumbing (names order, unit '
         'conversion callbacks, output arrays) is exercised by the exploration only; no theorem composes C12\'s parser model with sysRates',
+        'the quantifier over PROGRAMS (integrators) is a singleton here: only scipy/LSODA is installed, integrator=None and "scipy" are the '
+        'same solver; cvode/odeint/gsl back-ends of pyodesys are never exercised',
         'unit-aware entry points (get_odesys(unit_registry=...), quantities in and out) of integrate and max_euler_step_cb: oracle only',
         'other system classes / options of the builder (pyodesys ScaledSys with dep_scaling / indep_scaling): the theorems speak about the '
         'plain system; that ScaledSys IS the plain system with k_int = k s^(1-n)/tau at s*y is used by the correspondence, not proved; the '
         'user-scale reading of the returned step (h/indep_scaling, cap 1/indep_scaling) is an interpretation checked by the oracle only',
         'the many spellings of a reaction in text (repeated terms, explicit 1, mixes) reach the integrator unchanged: sampled only (C12 proves '
         'the parser model, nothing composes it with the kinetics here)',
-        'zero composition coefficients (numpy 0/0 -> nan instead of ZeroDivisionError): outside the model and not generated',
+        'zero composition coefficients: the exact model refuses (ZeroDivisionError), numpy gives inf/nan bounds and an order-dependent min; Python\'s '
+        'min() ignores a nan unless it comes first, so the real bound is finite or nan depending on the dict order. Generated in the bucket '
+        'euler:zero-coefficient as a documented model/code divergence (the model refuses where the code answers); no claim there',
         'the other ways of building the system (include_params=False with named / unique-key constants, substitutions incl. Expr-valued, '
         'PartiallySolvedSystem, default formula factory): the model is the plain system with the constants bound (C04 binding_invariance); '
         'that these builds integrate to the same exact solutions is sampled only',
@@ -462,6 +469,12 @@ class C06(Property):
         elif r < 0.12:                                        # a substance that takes part in no reaction: get_odesys refuses
             subs.append(['Zz', [[1, 1]]])
             planted = 'nonparticipating'
+        elif r < 0.15:                                        # QUIRK: an explicit zero composition coefficient ({6: 0}): exact numbers
+            j = rng.randrange(len(subs))                     # raise ZeroDivisionError (the model), numpy floats give inf / nan bounds
+            free = [e for e in ELEMENTS if e not in [k for k, _ in subs[j][1]]]
+            if free:
+                subs[j] = [subs[j][0], subs[j][1] + [[rng.choice(free), 0]]]
+                planted = 'zero-coefficient'
         elif r < 0.18:                                        # consumption through an inactive reactant (outside quasi_positive)
             j = rng.randrange(len(rxns))
             if rxns[j]['reac'][0][1] > 1:
@@ -655,6 +668,7 @@ class C06(Property):
                   'rxns': case['rxns'], 'states': case['states'], 'pre': case.get('pre')}
             bo = case.get('bopt') or {}
             mc['bopt'] = bo or None
+            mc['quirk'] = case.get('planted') == 'zero-coefficient'
             if bo.get('cstr'):
                 mc['op'] = 'max_euler_step_cb_cstr'
                 mc['fr'], mc['fc'] = bo['cstr']['fr'], bo['cstr']['fc']
@@ -835,6 +849,13 @@ class C06(Property):
         if len(a) != len(b):
             return False
         for x, y in zip(a, b):
+            if y == 'ZeroDivisionError' and ';' in x:
+                # QUIRK bucket (documented divergence, no claim): a zero composition coefficient makes the exact model refuse, whereas
+                # numpy computes total/0 = inf or 0/0 = nan and Python's min() then ignores a nan unless it comes first
+                # ({1: 1, 6: 0} -> finite bound, {6: 0, 1: 1} -> nan): float semantics the exact model cannot express
+                if not mc.get('quirk'):
+                    return False
+                continue
             if ';' not in x or ';' not in y:
                 if x != y:
                     return False
@@ -890,13 +911,13 @@ class C06(Property):
         ub = indep_bounds(subs, y)
         # (open system: a species that holds all of an element sits ON its "elemental bound"; with a feed pushing it up the callback
         #  computes (ub - y)/f with ub - y = rounding noise of either sign, i.e. a step of +-1e-17: accepted as zero there only)
-        #  a negative value whose whole effect |h*f_i| is below 1e-12 of the concentration scale counts as the zero step; triaged:
+        #  a negative value whose whole effect |h*f_i| is below 1e-14 of the concentration scale (a few ulp of ub - y) counts as the zero step; triaged:
         #  the closed-system bound is no limit of an open tank, h = 0 satisfies the clause)
-        if feed and h < 0 and all(abs(h * f[i]) <= 1e-12 * (abs(y[i]) + (ub[i] if math.isfinite(ub[i]) else 0) + 1e-300) for i in range(ns)):
+        if feed and h < 0 and all(abs(h * f[i]) <= 1e-14 * (abs(y[i]) + (ub[i] if math.isfinite(ub[i]) else 0) + 1e-300) for i in range(ns)):
             return None
         if not (0 <= h <= cap * (1 + 1e-12)):
             return 'max_euler_step_cb: step %r (user time scale) outside [0, %r] at y=%r%s' % (h, cap, y, where)
-        best = math.inf
+        best, skipped = math.inf, False
         for i in range(ns):
             tol = 1e-9 * (abs(y[i]) + h * mag[i] + (ub[i] if math.isfinite(ub[i]) else 0)) + 1e-300
             yn = y[i] + h * f[i]
@@ -904,27 +925,29 @@ class C06(Property):
                 return 'Euler step h=%r makes %s negative: %r + h*%r = %r (y=%r)%s' % (h, subs[i][0], y[i], f[i], yn, y, where)
             if yn > ub[i] + tol:
                 return 'Euler step h=%r takes %s above its elemental bound %r: %r (y=%r)%s' % (h, subs[i][0], ub[i], yn, y, where)
-            if f[i] > 0 and 0 < ub[i] - y[i] <= 1e-6 * ub[i]:
-                best = -1                                      # ub - y cancels (also inside the callback): limit ill-conditioned
-            elif abs(f[i]) > 1e-6 * mag[i]:                     # well-conditioned derivative: its step limit is meaningful
-                lim = (ub[i] - y[i]) / f[i] if f[i] > 0 else -y[i] / f[i]
-                best = min(best, lim)
-            elif f[i] != 0:
-                best = -1                                      # ill-conditioned component: skip the maximality check
-        if best >= 0:
-            want = min(best, cap)
-            if abs(h - want) > 1e-7 * max(want, 1e-300) and not (want == 0 and h == 0):
-                return 'max_euler_step_cb returned h=%r, the largest safe step <= %r is %r (y=%r)%s' % (h, cap, want, y, where)
+            # the limit of component i carries the relative error eps*mag/|f| (derivative) + 4 eps*ub/(ub - y) (upper side, also inside
+            # the callback); it takes part in the maximality check when that is below 2e-8, otherwise only that component is left out
+            if f[i] == 0:
+                continue
+            if abs(f[i]) < 1e-8 * mag[i] or (f[i] > 0 and 0 < ub[i] - y[i] < 2e-8 * ub[i]):
+                skipped = True
+                continue
+            best = min(best, (ub[i] - y[i]) / f[i] if f[i] > 0 else -y[i] / f[i])
+        want = min(best, cap)
+        if h > want * (1 + 1e-7) + 1e-300:
+            return 'max_euler_step_cb returned h=%r, longer than the largest safe step <= %r, which is %r (y=%r)%s' % (h, cap, want, y, where)
+        if not skipped and abs(h - want) > 1e-7 * max(want, 1e-300) and not (want == 0 and h == 0):
+            return 'max_euler_step_cb returned h=%r, the largest safe step <= %r is %r (y=%r)%s' % (h, cap, want, y, where)
         return None
 
     def _oracle_euler(self, case):
         subs, rxns = case['subs'], case['rxns']
-        if case.get('planted') in ('unbalanced', 'nonparticipating'):
+        if case.get('planted') in ('unbalanced', 'nonparticipating', 'zero-coefficient') or not rxns:
             return None
         so = case.get('sysopt')
         rsys, odesys, extra = self._build(subs, rxns, case.get('pre'), so, case.get('bopt'))
-        if extra is None:
-            return None
+        if extra is None:      # a planted balanced system in which every substance takes part must be built
+            return 'get_odesys refused a balanced system: %s: %s' % (type(odesys).__name__, odesys)
         raw_cb, pv = extra['max_euler_step_cb'], extra['_pvals']
         cb = None if raw_cb is None else ((lambda x, y: raw_cb(x, y, pv)) if pv else raw_cb)
         cs = (case.get('bopt') or {}).get('cstr')
